@@ -41,6 +41,21 @@ let show_opres = function
   | RList (Raise e) -> "([] !" ^ show_exn e ^ ")"
   | RList r -> show_outcome (fun (ks, e) -> "(" ^ show_list show_node ks ^ " " ^ show_exnopt e ^ ")") r
   | RSkip -> "SKIP"
+(* family operation "<root number>@<operation>": operation = an hdop token, or "Y;<cpath>" (public_copy) / "R;<cpath>" (re-read) *)
+let arg_fop t =
+  match String.index_opt t '@' with
+  | None -> failwith ("arg_fop " ^ t)
+  | Some k ->
+    let r = nat_of_int (int_of_string (String.sub t 0 k)) in
+    let body = String.sub t (k + 1) (String.length t - k - 1) in
+    (match String.split_on_char ';' body with
+     | ["Y"; p] -> FPublicCopy (r, arg_cpath p)
+     | ["R"; p] -> FReload (r, arg_cpath p)
+     | _ -> FCall (r, arg_op body))
+let show_fres (_, x) = match x with
+  | FRes r -> show_opres r
+  | FNew r -> show_outcome show_node r
+  | FSkip -> "SKIP"
 let show_pairopt = function
   | None -> "N"
   | Some (a, b) -> "(" ^ show_bytes a ^ " " ^ show_bytes b ^ ")"
@@ -55,6 +70,11 @@ let dispatch f args = match f, args with
   | "ops", [seed; pub; ops] ->
     (match root_of seed pub with
      | Ret root -> show_list show_opres (c09_run_ops osec ohmac oh160 root (arg_list arg_op ops))
+     | Raise e -> "!" ^ show_exn e
+     | OutOfFuel -> "!OUT_OF_FUEL")
+  | "fops", [seed; pub; ops] ->
+    (match root_of seed pub with
+     | Ret root -> show_list show_fres (c09_run_fops osec ounsec ohmac oh160 root (arg_list arg_fop ops))
      | Raise e -> "!" ^ show_exn e
      | OutOfFuel -> "!OUT_OF_FUEL")
   | "node_ops", [c; d; fp; i; s; p; ops] ->
